@@ -366,7 +366,7 @@ fn constants_and_conversions(e: &mut Eng) {
         e.nontrivial += 1;
         let want = parse_name(name);
         seen.insert(want);
-        if checked && (unit_exps(*u) != want || unit_exps_debug(*u) != want) {
+        if checked && (unit_exps(*u) != want || unit_exps_debug(*u).map(|d| d != want).unwrap_or(false)) {
             e.violation("units:named-constant", 1, || format!("{} has exponents {:?} but its name states {:?}", name, unit_exps(*u), want));
         }
         e.outcome(h64(&want));
@@ -537,6 +537,7 @@ pub fn run(ctx: &Ctx) -> Vec<Eng> {
         "all ordered pairs of the 49 grid units x every Quantity operator form (+ - * / and assign forms, partial_cmp < >) x all 144 ordered pairs of a 12-value f32 alphabet (incl. +-0, MAX, MIN_POSITIVE, a subnormal); same operators on bare units; equality helpers; oracle: result unit = exponent arithmetic (read from the representation, independent of the crate's equality code), value bit-equal to the raw f32 operator, panic <=> add/sub/ordering with differing units; non-trivial = the two units differ",
         "49 x 49 unit pairs",
     );
+    e1.notes.push(unit_mode());
     let ax = axis(false);
     let mut pairs: Vec<((i32, i32), (i32, i32))> = Vec::new();
     for &m1 in &ax {
